@@ -486,6 +486,10 @@ def run(ck):
     t0 = time.time()
     oracle_fail += c07_strings.string_level(ck, rng, thorough)
     timing["string_level_s"] = round(time.time() - t0, 1)
+    lfails, lcases, lmeta = c07_strings.literal_level(ck, rng, thorough)
+    oracle_fail += lfails
+    cases += lcases
+    meta += lmeta
     ufails, ucases, umeta = c07_strings.uncertainty_level(ck, rng, thorough)
     oracle_fail += ufails
     cases += ucases
